@@ -118,8 +118,17 @@ def materialise(files, in_dir):
             by = damage.apply_all(by, spec['faults'])
         p = os.path.join(in_dir, spec['path'])
         os.makedirs(os.path.dirname(p), exist_ok=True)
-        with open(p, 'wb') as f:
-            f.write(by)
+        if spec.get('symlink'):
+            # the directory entry is a symbolic link to a file kept elsewhere (a staging directory of links into an archive)
+            arch = os.path.join(os.path.dirname(os.path.abspath(in_dir)), 'archive')
+            os.makedirs(arch, exist_ok=True)
+            target = os.path.join(arch, '%03d_%s' % (len(meta), os.path.basename(spec['path']) or 'f'))
+            with open(target, 'wb') as f:
+                f.write(by)
+            os.symlink(target, p)
+        else:
+            with open(p, 'wb') as f:
+                f.write(by)
         meta[spec['path']] = {'size': len(by), 'world': spec['gen']['world'], 'faulted': bool(spec.get('faults')),
                               'fault_fired': by != original,
                               'fault_kinds': [f[0] for f in spec.get('faults', [])]}
